@@ -27,9 +27,9 @@ META = dict(
 
 def tier_params(tier):
     if tier == "quick":
-        return dict(models=[("orders", 1, 2, 1, 3), ("pools", 1, 0, 1, 3), ("orders", 2, 2, 1, 3)], mc_timeout=420,
+        return dict(models=[("orders", 1, 2, 2, 1, 3), ("pools", 1, 0, 0, 1, 3), ("orders", 2, 2, 2, 1, 3)], mc_timeout=420,
                     budget=1000, depth=7, runs=24, steps=120, trace_timeout=900)
-    return dict(models=[("orders", 1, 3, 1, 4), ("pools", 1, 0, 1, 4), ("orders", 2, 3, 1, 3)], mc_timeout=1500,
+    return dict(models=[("orders", 1, 3, -4, 1, 4), ("orders", 1, 2, 2, 1, 4), ("pools", 1, 0, 0, 1, 4), ("orders", 2, 3, -4, 1, 3), ("orders", 2, 2, 2, 1, 4)], mc_timeout=1500,
                 budget=5000, depth=8, runs=120, steps=220, trace_timeout=3000)
 
 
@@ -42,25 +42,36 @@ def pipeline(c):
         wd = os.path.join(d, "wd")
         vlib.stage_spec(wd, [FAM])
         tfile = os.path.join(d, "alphabet.txt")
-        models = []
-        for scope, app, maxoid, maxreq, maxh in P["models"]:
-            cfg = "MC_Liquidity_%s_%d.cfg" % (scope, app)
+        models, emitted = [], set()
+        for scope, app, maxoid, slack, maxreq, maxh in P["models"]:
+            cfg = "MC_Liquidity_%s_%d_%d_%d.cfg" % (scope, app, maxoid, maxh)
             with open(os.path.join(wd, cfg), "w") as f:
-                f.write("SPECIFICATION Spec\nCONSTANTS MApp = %d  MUsers = {\"u1\", \"u2\"}  Scope = \"%s\"  MaxOid = %d  MaxReq = %d  MaxH = %d  Swapped = FALSE  Emit = TRUE\n"
+                f.write("SPECIFICATION Spec\nCONSTANTS MApp = %d  MUsers = {\"u1\", \"u2\"}  Scope = \"%s\"  MaxOid = %d  MMSlack = %d  MaxReq = %d  MaxH = %d  Swapped = FALSE  Emit = %s\n"
                         "CONSTANTS Accts <- MCAccts  Denoms <- MCDenoms\nINVARIANTS InvC04 InvC07 InvCancellable\nCHECK_DEADLOCK FALSE\n"
-                        % (app, scope, maxoid, maxreq, maxh))
+                        % (app, scope, maxoid, slack, maxreq, maxh, "FALSE" if (scope, app) in emitted else "TRUE"))
+            emitted.add((scope, app))
             r = vlib.model_check(wd, "MC_Liquidity", cfg, workers=4, tfile=tfile, timeout=P["mc_timeout"])
-            models.append(dict(cfg="scope=%s app=%d MaxOid=%d MaxReq=%d MaxH=%d" % (scope, app, maxoid, maxreq, maxh),
+            models.append(dict(cfg="scope=%s app=%d MaxOid=%d MMSlack=%d MaxReq=%d MaxH=%d" % (scope, app, maxoid, slack, maxreq, maxh),
                                generated=r["generated"], distinct=r["distinct"], depth=r.get("depth"), wall=round(r["wall"], 1)))
+        # sanity of the model-level formulas: with the code's exchanged lookup (Swapped = TRUE) and app id != pair id the
+        # MM-replace step property must FAIL on the model (the counterexample is the confirmed defect, reproduced on real code by the drivers)
+        with open(os.path.join(wd, "MC_Liquidity_swapped.cfg"), "w") as f:
+            f.write("SPECIFICATION Spec\nCONSTANTS MApp = 2  MUsers = {\"u1\", \"u2\"}  Scope = \"orders\"  MaxOid = 2  MMSlack = 2  MaxReq = 1  MaxH = 3  Swapped = TRUE  Emit = FALSE\n"
+                    "CONSTANTS Accts <- MCAccts  Denoms <- MCDenoms\nINVARIANTS InvC04 InvC07 InvCancellable\nCHECK_DEADLOCK FALSE\n")
+        rs = vlib.run_tlc(wd, "MC_Liquidity", "MC_Liquidity_swapped.cfg", workers=4, timeout=600)
+        bites = "step property violated by the model" in rs["out"] and ("CancelMM" in rs["out"] or "MMOrder" in rs["out"])
+        if not bites:
+            vlib.log(vlib.tlc_error_text(rs["out"]) or rs["out"][-2000:])
+            raise vlib.NoVerdict("model sanity: the MM-replace formula does not fail on the model with the exchanged lookup")
         logf = os.path.join(d, "liquidity.ndjson")
         out = vlib.run_vh([FAM, "--model", tfile, "--out", logf, "--seed", str(c.seed), "--budget", str(P["budget"]), "--depth", str(P["depth"]),
                            "--runs", str(P["runs"]), "--steps", str(P["steps"])], timeout=1800)
         tr = vlib.trace_check(wd, "Trace_Liquidity", "Trace_Liquidity.cfg", logf, workers=4, timeout=P["trace_timeout"])
         shutil.rmtree(wd, ignore_errors=True)
         explored = [l for l in out.splitlines() if l.startswith("explore ")]
-        return dict(models=models, fails=tr["fails"], stats=tr["stats"], distinct=tr.get("distinct"), trace_wall=round(tr["wall"], 1), explored=explored)
+        return dict(models=models, swapped_lookup_counterexample_found=bites, fails=tr["fails"], stats=tr["stats"], distinct=tr.get("distinct"), trace_wall=round(tr["wall"], 1), explored=explored)
 
-    d, res, was = vlib.cached(FAM, [binhash, vlib.spec_hash(FAM), c.tier, c.seed], produce)
+    d, res, was = vlib.cached(FAM, [binhash, vlib.spec_hash(FAM), vlib.sha_file(os.path.abspath(__file__)), c.tier, c.seed], produce)
     if was:
         vlib.log("[cache] re-using the %s family pass %s" % (FAM, d))
     return d, res
@@ -84,7 +95,7 @@ def finish(c, d, res, keys, rule):
                       path=[(x["a"], x["args"]) for x in vlib.path_to(nodes, n["id"])][-8:]) for n in (pick[:1] + pick[len(pick) // 2:len(pick) // 2 + 1] + pick[-1:])]
     return c.finish("model_checking", dict(
         states=sum(m["distinct"] for m in res["models"]), transitions=sum(m["generated"] for m in res["models"]),
-        traces_validated_against_impl=len(nodes), model_configs=res["models"], implementation_exploration=res["explored"],
+        traces_validated_against_impl=len(nodes), model_configs=res["models"], model_reproduces_swapped_mm_lookup_defect=res.get("swapped_lookup_counterexample_found"), implementation_exploration=res["explored"],
         trace_states=res.get("distinct"), antecedents=st, exhaustive=False, rule=rule),
         assumptions=["matching fills, pool-share arithmetic and the MM tick split are environment choices taken from the recorded post-state (amm family C05/C06)",
                      "message authentication assumed (signer = msg signer); gas infinite",
